@@ -388,6 +388,9 @@ def extra(ctx):
         for dims in (1000, 1000000, 200000000, 2147483647):
             ints = [3, 1, dims] if nm == "LIST.NEIGHBOR*IDS" else [0, 3, 1, dims]
             cases.append(case_run(1, state(exec=[I(nm)], int=ints, float=[fbits(1.0)], code=[L(Z(1)), L(Z(2)), L(Z(3))]), 0, 1))
+    for n_ in (2147483647, 1000000000, 100000000):
+        cases.append(case_run(1, state(exec=[I("INTVECTOR.FROMINT")], int=[n_, 1, 2, 3]), 0, 1))
+        cases.append(case_run(0, state(exec=[I("INTVECTOR.FROMINT")], int=[n_, 1, 2, 3]), 0, 1))
     # 64 and more dimensions on a size that allows them (the power in the edge-length search overflows: the search must stop)
     for nm in NBR:
         for (size, dims) in ((64, 64), (100, 100), (70, 2147483647), (100, 64), (65, 65)):
